@@ -109,6 +109,10 @@ def gen_cases(rng, thorough, base_len, errs):
         c.append(line("hostname", [hx(rbytes(rng, n, PRINT))], all_caps(n)))
     for n in [100, 255, 256, 300]:
         c.append(line("hostname", [hx(rbytes(rng, n, PRINT))], all_caps(70)))
+    # the kernel's own host name, really set (private UTS namespace in a forked child; needs root)
+    for n in [1, 2, 63, 64] + [rng.randint(3, 62) for _ in range(4)]:
+        c.append(line("hostname", ["u" + bytes(rbytes(rng, n, b"abcdefghijklmnopqrstuvwxyz0123456789-")).hex()],
+                      all_caps(70)))
     g["hostname"] = c
 
     # working directories: nested directories below the group's start directory
@@ -138,6 +142,14 @@ def gen_cases(rng, thorough, base_len, errs):
             c.append(line("cwd", [str(x) for x in comps_for(t)], edge_caps(rng, t, [16, 4096, 4097, 4098])))
     for t in [4097, 4098, 4200, 5035, 8000] + [rng.randint(4099, 12000) for _ in range(3)]:
         c.append(line("cwd", [str(x) for x in comps_for(t)], edge_caps(rng, t, [16, 4095, 4096, 4097, 4098])))
+    # the root directory, one-character directories, and paths written with trailing slashes / dots
+    # ("=" as is, "^" inside a chroot of the start directory, "~" below the start directory); the
+    # harness does these in a forked child and reports what getcwd says there
+    for pth in ["=/", "=/.", "=//", "=/tmp/", "=/tmp/.", "^/", "^/a", "^/a/", "^/a/.", "^/a/b/..", "^/b/./c//",
+                "^/%s" % chr(rng.randrange(0x62, 0x7b)), "^/a/%s/" % chr(rng.randrange(0x62, 0x7b))]:
+        c.append(line("cwd", [pth], all_caps(14)))
+    for pth in ["~x/", "~x/./y/.", "~x/y/../", "~./z//"]:
+        c.append(line("cwd", [pth], all_caps(base_len + len(pth) + 2)))
     g["cwd"] = c
 
     c = [line("fsevent", ["-"], [1, 2, 3, 10])]
@@ -580,6 +592,14 @@ def main():
             chk.sample({"case": cases[len(cases) // 2][:160], "impl": impl[len(cases) // 2][:160]}, limit=15)
     chk.cov["getter_calls"] = ncalls
     chk.cov["skipped_cases"] = skipped
+    for k, tag, key in (("hostname", "hostname u", "hostname_uts_namespace"), ("cwd", "cwd ^", "cwd_chroot")):
+        if k in groups:
+            sk = [o for ln, o in zip(groups[k], res[k][0]) if ln.startswith(tag) and o.startswith("SKIP")]
+            nn = sum(1 for ln in groups[k] if ln.startswith(tag))
+            chk.cov[key] = "not run" if nn == 0 else ("ok (%d cases)" % nn if not sk else
+                                                      "skipped %d of %d: %s" % (len(sk), nn, sk[0][:60]))
+            if sk:
+                chk.assumptions.append("%s: %s" % (key, sk[0][:80]))
 
     # known defect: uv_cwd with a working directory longer than PATH_MAX and a too-small buffer
     if defects.cwd_long:
